@@ -23,7 +23,7 @@ RULE = ("1D (irregular bins, zeros, int / float contents, custom errors, named) 
         "and kind must be refused; TimeTickHandler ticks must be the multiples of the unit inside the range (or edges / centres) with one label "
         "each; a case = one figure; non-trivial = >= 2 bins with unequal widths or a non-default option; distinct by hash of (histogram, kind, options)")
 ASSUMPTIONS = ["matplotlib artists are read back from the Axes object (Agg backend); nothing is rendered to pixels",
-               "plotly map is judged against 'cells at the bins' positions' (known finding plotly.map.no_positions)"]
+               "plotly heat maps: z must be the transposed contents with the bins' edges (or centres) as x / y"]
 
 
 def expected_data(h, density, cumulative):
@@ -374,7 +374,7 @@ def plotly_case(ctx, index, rng: random.Random):
                 ok = (close(xs, (b0[:, 0] + b0[:, 1]) / 2) or close(xs, np.concatenate([b0[:1, 0], b0[:, 1]]))) and (close(ys, (b1[:, 0] + b1[:, 1]) / 2) or close(ys, np.concatenate([b1[:1, 0], b1[:, 1]])))
             if not ok:
                 rec.fail(monitor="C20.artists", op="plotly.map", symptom="heat map cells are not drawn at the bins' positions (no x / y coordinates, axes transposed)", diff=["cells"],
-                         mechanism="plotly.map.no_positions", detail={"z_shape": list(z.shape), "frequencies_shape": list(f.shape), "has_x": xs is not None, "has_y": ys is not None})
+                         detail={"z_shape": list(z.shape), "frequencies_shape": list(f.shape), "has_x": xs is not None, "has_y": ys is not None})
             rec.mon("C20.unchanged")
             if snap.diff(before, snap.snapshot(h)):
                 rec.fail(monitor="C20.unchanged", op="plotly.map", symptom="plotting modified the histogram", diff=["histogram"], detail={})
